@@ -57,9 +57,14 @@ fn nsec(owner: &Name) -> Record {
 }
 
 fn run_case(seq: &[Op], trace: bool) -> CaseResult {
+    run_case_lb(seq, false, trace)
+}
+
+fn run_case_lb(seq: &[Op], loopback: bool, trace: bool) -> CaseResult {
     let mut res = CaseResult::default();
     let mut w = World::one(lay_v4());
     w.trace = trace;
+    w.loopback = w.loopback || loopback;
     w.poke(0);
     let mut browsing = false;
     let mut resolving = false;
@@ -272,7 +277,8 @@ fn run_case(seq: &[Op], trace: bool) -> CaseResult {
     let _ = w.ds[0].h.unregister("mine._t._tcp.local.").unwrap();
     w.poke(0);
     // the longest TTL any generator uses is 4500 s (corpus), everything else 120 s
-    w.advance(if seq.contains(&Op::HostileCorpus) { 4_502_000 } else { 122_000 });
+    // (with the multicast loop the daemon's own PTR/TXT records, TTL 4500 s, may have been cached)
+    w.advance(if seq.contains(&Op::HostileCorpus) || (w.loopback && seq.contains(&Op::Register)) { 4_502_000 } else { 122_000 });
     let mid = metrics(&mut w);
     w.advance(3_600_000);
     let end = metrics(&mut w);
@@ -327,6 +333,22 @@ pub fn check(tier: &str) -> i32 {
         run: Box::new(move |i, tr| run_case(&seq_of(i), tr)),
     };
     rep.run_part(&part, Duration::from_secs(if thorough { 3000 } else { 50 }));
+    // the same with the daemon hearing its own multicasts, one level less deep
+    let ldepth = depth - 1;
+    let mut nl = 0u64;
+    let mut b = 1u64;
+    for _ in 0..=ldepth {
+        nl += b;
+        b *= m;
+    }
+    let lpart = FnPart {
+        name: "sequences-with-multicast-loop".into(),
+        rule: format!("every sequence of <= {ldepth} of the same events with the daemon hearing its own multicasts (IP_MULTICAST_LOOP, the crate's default), same comparisons"),
+        n: nl,
+        describe: Box::new(move |i| format!("{:?} multicast-loop", seq_of(i))),
+        run: Box::new(move |i, tr| run_case_lb(&seq_of(i), true, tr)),
+    };
+    rep.run_part(&lpart, Duration::from_secs(if thorough { 3000 } else { 50 }));
     // the growth pair needs both lengths in one history
     let pair = FnPart {
         name: "growth-pairs".into(),
